@@ -119,28 +119,32 @@ Definition device_accept (d : device) (reqtype devnonce : N) (frame : list N) : 
   end.
 
 (* ---- network / application server side: key envelopes ---- *)
-(* (KEKLabel, AESKey); [keks label] is the KEK the receiving server has configured under that label *)
-Definition open_envelope (keks : list N -> list N) (e : list N * list N) : option (list N) :=
-  match fst e with
-  | [] => Some (snd e)                         (* no KEKLabel: the key is carried in the clear *)
-  | label => unwrap (keks label) (snd e)       (* RFC 3394; None when the integrity check fails *)
-  end.
+(* (KEKLabel, AESKey).  [keks label] is the KEK configured under that label ([] = none), [own] the
+   label under which the receiving server shares a KEK with the join server (the NetID text for a
+   network server, the AS-KEK label for an application server; [] = none).
+   A server that shares a KEK expects its keys wrapped with it (RFC 3394) and labelled; a server
+   without one expects the key in the clear without a label. *)
+Definition is_empty {A} (l : list A) : bool := match l with [] => true | _ => false end.
 
-Definition opens_to (keks : list N -> list N) (e : option (list N * list N)) (key : list N) : bool :=
+Definition opens_to (keks : list N -> list N) (own : list N) (e : option (list N * list N)) (key : list N) : bool :=
   match e with
-  | Some env => match open_envelope keks env with Some k => list_eqb N.eqb k key | None => false end
+  | Some (label, data) =>
+    if negb (is_empty own) && negb (is_empty (keks own))
+    then list_eqb N.eqb label own &&
+         match unwrap (keks own) data with Some k => list_eqb N.eqb k key | None => false end
+    else is_empty label && list_eqb N.eqb data key
   | None => false
   end.
 
 (* the keys the servers obtain from a Success answer are the keys the device derived:
    1.0 (OptNeg unset): NwkSKey + AppSKey;  1.1: FNwkSIntKey, SNwkSIntKey, NwkSEncKey + AppSKey *)
-Definition servers_share_keys (keks : list N -> list N) (s : session)
+Definition servers_share_keys (keks : list N -> list N) (ns_label as_label : list N) (s : session)
     (snwksint fnwksint nwksenc nwkskey appskey : option (list N * list N)) : bool :=
-  opens_to keks appskey (s_appskey s) &&
+  opens_to keks as_label appskey (s_appskey s) &&
   (if s_optneg s
-   then opens_to keks fnwksint (s_fnwksint s) && opens_to keks snwksint (s_snwksint s)
-        && opens_to keks nwksenc (s_nwksenc s)
-   else opens_to keks nwkskey (s_fnwksint s)).
+   then opens_to keks ns_label fnwksint (s_fnwksint s) && opens_to keks ns_label snwksint (s_snwksint s)
+        && opens_to keks ns_label nwksenc (s_nwksenc s)
+   else opens_to keks ns_label nwkskey (s_fnwksint s)).
 
 (* the join-accept carries what the network server asked for *)
 Definition echoes (s : session) (joinnonce : N) (netid devaddr : list N) (dlsettings rxdelay : N)
